@@ -16,7 +16,7 @@ From Coq Require Import NArith.
 From BS Require Abs.Entities Abs.EntitiesProofs Abs.Values Abs.ValuesProofs Abs.Parents Abs.ParentsProofs
                 Abs.Assets Abs.AssetsProofs.
 From BS Require Import Sync.Types Sync.Model Sync.Proofs.FixLemmas Sync.Proofs.Fix.
-From BS Require Sync.Proofs.Debounce.
+From BS Require Sync.Proofs.Debounce Sync.Proofs.AssetDebounce.
 
 (* ---------------- entities (spawn / despawn / snapshot) ---------------------------------------- *)
 Module E.
@@ -226,6 +226,65 @@ Module D.
   Proof. exact detector_without_token_announces. Qed.
 End D.
 
+(* The debounce of asset updates (the counter pushed_handles_from_network, repair of S7) on the FRAME-LEVEL
+   model (Sync/Proofs/AssetDebounce.v), for ALL states, any asset kind, host or client. *)
+Module AD.
+  Import AssetDebounce.
+
+  (* the counter semantics of one run of react_on_changed_*: with n tokens and m readable events of an id,
+     min(n, m) events are swallowed and max(0, m - n) announced, each with the content the store holds NOW *)
+  Theorem C09_asset_events_counted_against_tokens :
+    forall s k a v pr,
+      a_store pr !! akey k a = Some v ->
+      let n := ntok a (t_htok pr) in
+      let m := readable k a pr in
+      let pr' := react_on_changed_assets s k pr in
+      env pr' = env pr /\
+      ntok a (t_htok pr') = (n - m)%nat /\
+      out_of a (p_out pr') = out_of a (p_out pr) ++ concat (replicate (m - n) (ann s k pr a v)) /\
+      ((m <= n)%nat -> h_cache pr' !! akey k a = h_cache pr !! akey k a) /\
+      ((n < m)%nat -> h_cache pr' !! akey k a = cache_after k v (h_cache pr !! akey k a)).
+  Proof. exact react_counts. Qed.
+
+  (* NO ECHO: an applied download is not announced and consumes exactly its own token *)
+  Theorem C09_applied_download_is_not_announced :
+    forall s c a v fl pr,
+      let k := KClass c in
+      let pr1 := process_assets pr c [(c, a, Some v, fl)] in
+      let pr3 := react_on_changed_assets s k (last_schedule pr1) in
+      (pending k a pr <= ntok a (t_htok pr))%nat ->
+      out_of a (p_out pr3) = out_of a (p_out pr1) /\ out_of a (p_out pr3) = out_of a (p_out pr) /\
+      h_cache pr3 !! akey k a = h_cache pr !! akey k a /\
+      ntok a (t_htok pr1) = S (ntok a (t_htok pr)) /\
+      ntok a (t_htok pr3) = (ntok a (t_htok pr) - pending k a pr)%nat /\
+      (pending k a pr = 0%nat -> ntok a (t_htok pr3) = ntok a (t_htok pr)).
+  Proof. exact applied_download_is_not_announced. Qed.
+
+  (* ... a local publication without a token is announced exactly once, with the current content *)
+  Theorem C09_local_publication_is_announced_once :
+    forall s k a v pr,
+      let pr1 := app_step pr (OAddAsset k a v) in
+      let pr3 := react_on_changed_assets s k (last_schedule pr1) in
+      ntok a (t_htok pr) = 0%nat -> pending k a pr = 0%nat ->
+      out_of a (p_out pr3) = out_of a (p_out pr) ++ ann s k pr a v /\
+      h_cache pr3 !! akey k a = cache_after k v (h_cache pr !! akey k a) /\
+      ntok a (t_htok pr3) = 0%nat.
+  Proof. exact local_publication_is_announced. Qed.
+
+  (* the hazard (observed, outside the properties): a token without its event - a class whose react system
+     does not run on this peer, or the SAME uuid under another asset kind: tokens are keyed by the uuid alone -
+     swallows the next local publication of that id *)
+  Theorem C09_leftover_token_swallows_a_local_publication :
+    forall s k a v pr,
+      let pr1 := app_step pr (OAddAsset k a v) in
+      let pr3 := react_on_changed_assets s k (last_schedule pr1) in
+      (pending k a pr < ntok a (t_htok pr))%nat ->
+      out_of a (p_out pr3) = out_of a (p_out pr) /\
+      h_cache pr3 !! akey k a = h_cache pr !! akey k a /\
+      ntok a (t_htok pr3) = (ntok a (t_htok pr) - S (pending k a pr))%nat.
+  Proof. exact leftover_token_swallows_a_local_publication. Qed.
+End AD.
+
 Print Assumptions E.C09_entity_messages_per_operation.
 Print Assumptions E.C09_client_never_relays.
 Print Assumptions E.C09_relay_cost.
@@ -249,3 +308,7 @@ Print Assumptions C09_companions_leave_detectors_alone.
 Print Assumptions D.C09_applied_update_is_not_echoed.
 Print Assumptions D.C09_local_write_after_apply_is_announced.
 Print Assumptions D.C09_change_without_entry_announced_once.
+Print Assumptions AD.C09_asset_events_counted_against_tokens.
+Print Assumptions AD.C09_applied_download_is_not_announced.
+Print Assumptions AD.C09_local_publication_is_announced_once.
+Print Assumptions AD.C09_leftover_token_swallows_a_local_publication.
